@@ -377,6 +377,10 @@ def r08_3_implicit(ctx, rid='R08.3'):
                             any(s_ in (pp, 'list(%s)' % pp, '%s.copy()' % pp, '%s[:]' % pp) for pp in fi.params) for s_ in srcs):
                         r.ok('%s: %s.remove(%s) on a copy of a model-level name list' % (fi.qual, lst, x))
                         continue
+                    if const_str(n.args[0]) is not None and isinstance(n.func.value, ast.Name) and len(assigned_from(f, lst)) == 1 \
+                            and S._copies_of(f, lst) & set(fi.params):
+                        r.ok('%s: %s.remove(%s) on a copy (of a copy) of a model-level name list' % (fi.qual, lst, x))
+                        continue
                     ok = _membership_guard(f, n, x, lst)
                     if not ok:
                         # the element was put there by L.add(x) / L.append(x) on every path
